@@ -64,6 +64,9 @@ _MOD = None
 
 def _worker_init(prop, tier, seed):
     global _MOD
+    # private disk cache per worker process (two workers must never share adsg_core's on-disk caches)
+    os.environ['XDG_CACHE_HOME'] = os.path.join(os.environ['XDG_CACHE_HOME'], f'w{os.getpid()}')
+    os.makedirs(os.environ['XDG_CACHE_HOME'], exist_ok=True)
     import warnings
     warnings.filterwarnings('ignore')
     import numpy as np
@@ -228,6 +231,14 @@ def _run(prop, tier, seed, n_workers, t_start):
 
     # ---- replay files (at most MAX_REPORT_PER_KIND per kind)
     replay_dir = os.path.join(VERIF, 'replays', prop)
+    if os.environ.get('VERIF_DUMP_ALL') == '1':   # triage aid (not evidence): every violation of this run
+        os.makedirs(replay_dir, exist_ok=True)
+        with open(os.path.join(replay_dir, f'_all_{tier}.jsonl'), 'w') as fp:
+            for v in violations:
+                fp.write(json.dumps(dict(sig=signature(prop, v), case_sig=case_signature(prop, v),
+                                         known=signature(prop, v) in known_exact or case_signature(prop, v) in known_case,
+                                         kind=v.get('kind'), case=v.get('case'), detail=v.get('detail')),
+                                    sort_keys=True, default=_jsonable)+'\n')
     reported = []
     kind_count = {}
     for v in new_violations:
